@@ -49,7 +49,11 @@ def make_interp(ctx, env, native_ioport, has_devices, devices=None):
         if native_ioport:
             script['IOPort'] = mk_port('IOPort')
         if has_devices:
-            script['get_devices'] = lambda i, b, a, k, n: [dict(d) for d in (devices or [])]
+            def get_devices(i, b, a, k, n):
+                if isinstance(devices, tuple) and devices and devices[0] == 'raise':
+                    raise AbsRaise(devices[1], n)            # the module's own query fails (unknown api, device system down)
+                return [dict(d) for d in (devices or [])]
+            script['get_devices'] = get_devices
         mod = pm.AMock('module', script)
         state['module'] = mod
         return mod
@@ -92,6 +96,9 @@ def r20_open(ctx):
             for use_environ in (True, False):
                 for native in (True, False):
                     for pname in (None, 'P'):
+                      # other keyword arguments (virtual=True, autoreset) are the caller's business: they reach the constructors and
+                      # change nothing about where the name and the api come from
+                      for extra in ([{}, {'virtual': True}, {'autoreset': True}] if api_kw is None and api_call is None else [{}]):
                         for which in ('open_input', 'open_output', 'open_ioport'):
                             n += 1
                             ai = make_interp(ctx, env, native, True)
@@ -105,6 +112,7 @@ def r20_open(ctx):
                                     kw['name'] = pname
                                 if api_call is not None:
                                     kw['api'] = api_call
+                                kw.update(extra)
                                 r = pm.call(ai, ctx, b, which, [], kw)
                                 holder['imports_after_open'] = list(ai.state['imports'])
                                 pm.call(ai, ctx, b, which, [], dict(kw))
@@ -112,7 +120,7 @@ def r20_open(ctx):
                             outs = ai.explore(thunk)
                             o, fn = ctx.p.lookup_method(cls, which)
                             w = ctx.where(fn)
-                            cfg = f'{which}(name={pname!r}, api={api_call!r}) backend={bname!r} api={api_kw!r} env={sorted(env)} use_environ={use_environ} native_ioport={native}'
+                            cfg = f'{which}(name={pname!r}, api={api_call!r}{"".join(", %s=%r" % kv for kv in extra.items())}) backend={bname!r} api={api_kw!r} env={sorted(env)} use_environ={use_environ} native_ioport={native}'
                             if len(outs) != 1 or outs[0].kind != 'return':
                                 ctx.fail('R20.3', cfg, w, f'does not complete on one path: {outs}', construct=f'{fn.qname}::outcomes')
                                 continue
@@ -142,6 +150,9 @@ def r20_open(ctx):
                             ctx.require(got == want, 'R20.3', f'{cfg}.name', w,
                                         f'constructor calls {got}; precedence (explicit name > environment > backend default) gives {want}',
                                         construct=f'{fn.qname}::name-precedence')
+                            ctx.require(all(c[2].get(k_) == v_ for c in calls for k_, v_ in extra.items()), 'R20.2', f'{cfg}.other-keywords', w,
+                                        f'keyword arguments {extra} of the call reach the constructors as {[{k_: c[2].get(k_) for k_ in extra} for c in calls]}',
+                                        construct=f'{fn.qname}::keywords')
                             apis = [c[2].get('api') for c in calls]
                             ctx.require(all(a == want_api for a in apis) and len(apis) == len(want), 'R20.2', f'{cfg}.api', w,
                                         f'api passed to the constructors: {apis}; expected {want_api!r} for each', construct=f'{fn.qname}::api')
@@ -211,6 +222,16 @@ def r20_names(ctx):
         ctx.require(val == names, 'R20.5', f'{meth}() with one entry per direction', ctx.where(fn),
                     f'devices listed once per direction {[(d["name"], "in" if d["is_input"] else "out") for d in devices2]}: gives {val if val is not None else outs}, '
                     f'expected {names}', construct=f'{fn.qname}::listing')
+    # a module that has a device list and fails to produce it: the failure is the answer, not an empty list
+    for exc in ('AttributeError', 'OSError', 'KeyError'):
+        for meth in want:
+            ai = make_interp(ctx, {}, True, True, ('raise', exc))
+            o, fn = ctx.p.lookup_method(cls, meth)
+            outs = ai.explore(lambda: pm.call(ai, ctx, ai.apply(ClassRef(cls), [], {'name': 'mod'}, None), meth, [], {}))
+            ok = bool(outs) and all(o_.kind == 'raise' and o_.exc == exc for o_ in outs)
+            ctx.require(ok, 'R20.5', f'{meth}() when the module\'s get_devices raises {exc}', ctx.where(fn),
+                        f'gives {outs}; the names derive from the module\'s device list - its failure must come out, not a list of no ports',
+                        construct=f'{fn.qname}::listing-failure')
     for has_dev in (True, False):
         for bname, api_call in (('mod/APIN', None), ('mod', 'APIC'), ('mod', None)):
             for meth, names in want.items():
